@@ -213,6 +213,8 @@ def check(chk):
     chk.ob("DOM-12", "new balls and new eject chains announce balls_available", {"BallDevice._balls_added_callback", "BallDevice.setup_eject_chain"} <= scopes,
            g.where(), detail="posted in %s" % sorted(scopes), construct=BD + "::balls_available", text="balls_available posters")
 
+    _requests_sized_by_unclaimed(chk, repo)
+
     # ------------------------------------------------------------- BOOL-1
     n_h = 0
     for name in ("add_handler", "add_mode_event_handler"):
@@ -240,6 +242,49 @@ def check(chk):
     chk.expect(n_h >= 1, "C05: handlers of balldevice_balls_available lost")
 
 
+def _requests_sized_by_unclaimed(chk, repo):
+    """FLOW-5c: whoever asks a ball device to give up balls sizes the request by the balls that are not already claimed
+    (`available_balls`), never by the physical count (`balls`): a claimed ball cannot be delivered twice, the surplus request
+    would sit in the device's queue for ever.  DISCARD-1: the result of a side-effect free query of the ball-device package
+    (path searches, readiness tests) is never thrown away."""
+    n = 0
+    for f in repo.all_funcs("mpf/devices/"):
+        if f.relpath.startswith("mpf/devices/ball_device/"):
+            continue
+        for c in [x for x in ast.walk(f.node) if isinstance(x, ast.Call)]:
+            dev = cnt = None
+            if call_attr(c) == "add_ball" and kwarg(c, "source_device") is not None:
+                dev, cnt = kwarg(c, "source_device"), kwarg(c, "balls") or (c.args[0] if c.args else None)
+            elif call_attr(c) == "eject" and isinstance(c.func, ast.Attribute) and isinstance(c.func.value, ast.Name) and (c.args or kwarg(c, "balls") is not None):
+                dev, cnt = c.func.value, (kwarg(c, "balls") or c.args[0])
+            if dev is None or cnt is None or not isinstance(dev, ast.Name):
+                continue
+            exprs = [cnt]
+            if isinstance(cnt, ast.Name):
+                exprs += [a.value for a in ast.walk(f.node) if isinstance(a, ast.Assign) and any(isinstance(t, ast.Name) and t.id == cnt.id for t in a.targets)]
+            reads = {x.attr for e in exprs for x in ast.walk(e) if isinstance(x, ast.Attribute) and isinstance(x.value, ast.Name) and x.value.id == dev.id}
+            if not reads & {"balls", "available_balls"}:
+                continue
+            n += 1
+            chk.analysed(f)
+            chk.ob("FLOW-5c", "%s sizes its request to `%s` by the device's unclaimed balls" % (f.qualname, dev.id), "balls" not in reads,
+                   f.where(c), detail="reads %s of the device" % sorted(reads), construct=f.ident, text="request sized by %s.balls" % dev.id)
+    chk.ob("FLOW-5c", "request-sizing sites examined", n >= 3, "mpf/devices:1", detail="%d sites" % n, nontrivial=False)
+    from sa.helpers import query_methods, discarded_query_calls
+    q = query_methods(repo, "mpf/devices/ball_device/")
+    q2 = query_methods(repo, "mpf/devices/playfield")
+    q.update(q2)
+    k = 0
+    for f in list(repo.all_funcs("mpf/devices/ball_device/")) + list(repo.all_funcs("mpf/devices/playfield")):
+        k += 1
+        for st, name in discarded_query_calls(repo, f, q):
+            chk.ob("DISCARD-1", "the answer of the query `%s` is used" % name, False, f.where(st),
+                   detail="`%s` only computes an answer; as a statement its result is dropped (e.g. a lost `return` in a recursive search)" % short(st, 70),
+                   construct=f.ident, text="discarded result of %s in %s" % (name, f.name))
+    chk.ob("DISCARD-1", "ball-device functions examined for discarded query results (%d queries known)" % len(q), k >= 40 and len(q) >= 10,
+           "mpf/devices/ball_device:1", nontrivial=False)
+
+
 def battery():
     from sa.battery import M
     return [
@@ -259,6 +304,8 @@ def battery():
         # twins
         M("twin: end_eject order", BC, "        self._eject_started.clear()\n        self._is_counting.release()", "        self._is_counting.release()\n        self._eject_started.clear()", None),
         M("twin: handler returns None explicitly", BD, "            self._setup_or_queue_eject_to_target(target, player_controlled)\n\n    # ---------------------- End of state handling code", "            self._setup_or_queue_eject_to_target(target, player_controlled)\n        return None\n\n    # ---------------------- End of state handling code", None),
+        M("multiball sizes the lock release by the physical count", "mpf/devices/multiball.py", "min(device.available_balls, self.balls_added_live - balls_added)", "min(device.balls, self.balls_added_live - balls_added)", "FLOW-5c"),
+        M("path search result dropped", "mpf/devices/ball_device/outgoing_balls_handler.py", "            return self._current_target.find_available_ball_in_path(start)", "            self._current_target.find_available_ball_in_path(start)", "DISCARD-1"),
     ]
 
 
